@@ -1960,3 +1960,14 @@ M('c20-twin-cut-index-local', 'C20', 'silent',
    '''            cut = match.end(0)
             header_data = data[:cut]
             payload = data[cut:]''', 1))
+M('c18-unix-address-cut-at-first-nul', 'C18', 'fire:V5',
+  ('slimta/util/proxyproto.py',
+   '''            return src_addr.rstrip(b'\\x00'), dst_addr.rstrip(b'\\x00')''',
+   '''            return (src_addr.partition(b'\\x00')[0],
+                    dst_addr.partition(b'\\x00')[0])''', 1))
+M('c18-twin-unix-padding-helper', 'C18', 'silent',
+  ('slimta/util/proxyproto.py',
+   '''            return src_addr.rstrip(b'\\x00'), dst_addr.rstrip(b'\\x00')''',
+   '''            src_path = src_addr.rstrip(b'\\x00')
+            dst_path = dst_addr.rstrip(b'\\x00')
+            return src_path, dst_path''', 1))
